@@ -10,7 +10,9 @@ Stacks_ == <<
   << [t |-> "D", e |-> 100, lam |-> 2000], [t |-> "R", r |-> 15000, e |-> 50], [t |-> "D", e |-> 20, lam |-> 250] >>,
   << [t |-> "D", e |-> 200, lam |-> 500], [t |-> "D", e |-> 100, lam |-> 40] >>,  \* 6: thicker insulation than 3
   << [t |-> "D", e |-> 200, lam |-> 500], [t |-> "missing"] >>,              \* 7: a layer names a missing material
-  << [t |-> "zero", e |-> 100] >> >>                                         \* 8: conductivity 0
+  << [t |-> "zero", e |-> 100] >>,                                           \* 8: conductivity 0
+  << [t |-> "D", e |-> 120, lam |-> 500], [t |-> "R", r |-> 1800, e |-> 0], [t |-> "D", e |-> 50, lam |-> 40] >>,  \* 9: R layer of thickness 0
+  << [t |-> "D", e |-> 200, lam |-> 500], [t |-> "missing"] >> >>            \* 10: as 7, the missing material entered with thickness 0
 VARIABLES c, w, phase
 Cases == [bounds : {"EXTERIOR", "ADIABATIC"}, tilt : {"TOP", "SIDE", "BOTTOM"}, stack : DOMAIN Stacks_, this : {"C"}, next : {"none"},
           vent : {"none"}, depth : {0}, perim : {FALSE}, glazed : {FALSE}, over : {FALSE}]
